@@ -3,7 +3,7 @@ from hypothesis import strategies as st
 
 from vlib import jasm_io
 from vlib.gen_listing import att_view, listings
-from vlib.objsrc import listing_for, source_tag, sources
+from vlib.objsrc import ALL_LAYOUTS, LAYOUT_ASSUMPTION, LAYOUT_RULE, layout_tag, listing_for, source_tag, sources
 from vlib.refnorm import decode_stream
 from vlib.render import render
 from vlib.runner import Eval
@@ -20,7 +20,8 @@ RULE = (
     "may contain '|', ',' or '::'. Injectivity follows from the round trip. Non-trivial: listing has >= 1 operand-less, >= 1 multi-operand and >= 1 memory-operand "
     "instruction; distinct by hash of the stream."
 )
-ASSUMPTIONS = ["the parser's own Instruction list is the 'instruction list' the statement talks about", "objdump 2.40 as input source"]
+RULE += " Real objdump output is taken " + LAYOUT_RULE + "."
+ASSUMPTIONS = ["the parser's own Instruction list is the 'instruction list' the statement talks about", "objdump 2.40 as input source", LAYOUT_ASSUMPTION]
 FLOORS = {"nontrivial-mix": 0.3}
 
 
@@ -32,7 +33,7 @@ def budget(tier):
 def cases(draw):
     if draw(st.integers(0, 4)) == 0:
         return {"src": "synthetic", "listing": draw(listings(min_len=1, max_len=20))}
-    return draw(sources())
+    return draw(sources(layouts=ALL_LAYOUTS))
 
 
 def strategy(tier):
@@ -67,7 +68,7 @@ def _evaluate(case):
         ev.tags = ["synthetic"]
     else:
         rc, text, _ = listing_for(case)
-        ev.tags = [source_tag(case)]
+        ev.tags = [source_tag(case), layout_tag(case)]
         if rc != 0:
             ev.tags.append("objdump-failed")
             return ev
